@@ -34,6 +34,10 @@ enum Step {
 	Settle(u32),
 	/// the peer of a session goes silent (stops reading, hence sends no pongs) but keeps its socket open
 	SilenceWs(usize),
+	/// a call on an open session that does not finish before the end of the history
+	WsHangCall(usize),
+	/// the server closes this one session gracefully (connection with a stop channel of its own; not `Server::start`)
+	ServerCloseWs(usize),
 }
 
 struct Session {
@@ -47,6 +51,11 @@ struct Session {
 	frames: Arc<Mutex<Vec<Value>>>,
 	silent: Arc<tokio::sync::Notify>,
 	silenced_at: Option<tokio::time::Instant>,
+	/// stop channel of this connection alone
+	own_stop: Option<jsonrpsee_server::ServerHandle>,
+	/// nonce of the never-ending call sent on this session
+	hang_nonce: Option<u64>,
+	server_closing: bool,
 }
 
 #[derive(Debug, Clone)]
@@ -73,7 +82,7 @@ pub async fn scenario() {
 	let n_steps = rt::draw_range("n_steps", 4, 20);
 	let mut steps = Vec::new();
 	for _ in 0..n_steps {
-		let k = rt::draw("step", 20);
+		let k = rt::draw("step", 22);
 		// base histories of the fault sweep contain no aborts of their own
 		let k = if (sweep_base || rt::param("fault_at").is_some()) && matches!(k, 8 | 13..=16) { 19 } else { k };
 		steps.push(match k {
@@ -86,6 +95,8 @@ pub async fn scenario() {
 			16 => Step::AbortMidHandshake,
 			17 => Step::BadUpgrade,
 			18 if ping_mode => Step::SilenceWs(rt::draw("s", 4) as usize),
+			20 => Step::WsHangCall(rt::draw("s", 4) as usize),
+			21 if entry != Entry::Default && !sweep_base && rt::param("fault_at").is_none() => Step::ServerCloseWs(rt::draw("s", 4) as usize),
 			_ => Step::Settle(if ping_mode && rt::chance("long_settle", 1, 3) { 5000 } else { rt::draw_range("ms", 1, 50) }),
 		});
 	}
@@ -116,7 +127,13 @@ pub async fn scenario() {
 		match step {
 			Step::OpenWs => {
 				let start = rt::event("dir-open-ws", "");
-				let (end, ctl) = world.connect(&format!("ws{n}"));
+				let (end, ctl, own_stop) = if entry == Entry::Default {
+					let (e, c) = world.connect(&format!("ws{n}"));
+					(e, c, None)
+				} else {
+					let (e, c, h) = world.connect_own_stop(&format!("ws{n}"));
+					(e, c, Some(h))
+				};
 				match tokio::time::timeout(Duration::from_secs(5), world::ws_handshake(end)).await {
 					Ok(WsOpen::Open(tx, mut rx)) => {
 						let opened = rt::event("ws-open", format!("session {}", sessions.len()));
@@ -140,7 +157,7 @@ pub async fn scenario() {
 							}
 						});
 						attempts.lock().unwrap().push(Attempt { kind: "ws", start, refused: None, done: opened, nonce: 0 });
-						sessions.push(Session { tx: Some(tx), ctl, attempt_start: start, opened, ending: None, frames, silent, silenced_at: None });
+						sessions.push(Session { tx: Some(tx), ctl, attempt_start: start, opened, ending: None, frames, silent, silenced_at: None, own_stop, hang_nonce: None, server_closing: false });
 					}
 					Ok(WsOpen::Rejected(code)) => {
 						let done = rt::event("ws-rejected", format!("{code}"));
@@ -232,13 +249,46 @@ pub async fn scenario() {
 			}
 			Step::SilenceWs(s) => {
 				let k = sessions.len();
-				if k > 0 && sessions[s % k].tx.is_some() && sessions[s % k].silenced_at.is_none() {
+				// (a session the server is already closing is left alone: a drain that waits for a call does not look at pings)
+				if k > 0 && sessions[s % k].tx.is_some() && sessions[s % k].silenced_at.is_none() && sessions[s % k].ending.is_none() && !sessions[s % k].server_closing {
 					rt::event("dir-silence-ws", format!("session {}", s % k));
 					rt::probe("fault.silent_peer");
 					sessions[s % k].silent.notify_one();
 					sessions[s % k].silenced_at = Some(tokio::time::Instant::now());
 					// from the model's point of view the session may end any time from now on
 					sessions[s % k].ending = Some(rt::now_stamp());
+				}
+			}
+			Step::WsHangCall(s) => {
+				let k = sessions.len();
+				if k > 0 && sessions[s % k].hang_nonce.is_none() {
+					if let Some(tx) = sessions[s % k].tx.as_mut() {
+						rt::event("dir-ws-hang-call", format!("session {} nonce {n}", s % k));
+						let msg = format!("{{\"jsonrpc\":\"2.0\",\"id\":{n},\"method\":\"hang\",\"params\":[{n}]}}");
+						if matches!(tokio::time::timeout(Duration::from_millis(200), world::ws_send(tx, msg.as_bytes(), false)).await, Ok(Ok(()))) {
+							sessions[s % k].hang_nonce = Some(n);
+						}
+					}
+				}
+			}
+			Step::ServerCloseWs(s) => {
+				let k = sessions.len();
+				if k > 0 {
+					let sess = &mut sessions[s % k];
+					if let (Some(h), true, None) = (sess.own_stop.as_ref(), sess.tx.is_some(), sess.ending) {
+						let st = rt::event("dir-server-close-ws", format!("session {}", s % k));
+						rt::probe("fault.server_side_close");
+						let _ = h.stop();
+						sess.server_closing = true;
+						// a call that is executing keeps the connection (and its slot) until it has been answered, as long
+						// as the peer stays; otherwise the session may be over any time from now on
+						let executing = sess.hang_nonce.is_some_and(|hn| world.log.lock().unwrap().invocations.iter().any(|i| i.method == "hang" && i.params.as_deref() == Some(&format!("[{hn}]"))));
+						if executing {
+							rt::probe("server_close_while_call_executing");
+						} else {
+							sess.ending = Some(st);
+						}
+					}
 				}
 			}
 			Step::Settle(ms) => {
@@ -377,6 +427,7 @@ pub async fn scenario() {
 	drop(log);
 	drop(refill);
 	drop(kept_silent);
+	world.release_hangs();
 	for s in sessions.iter() {
 		s.ctl.reset();
 	}
